@@ -127,6 +127,11 @@ class FlatMieContribution(Contribution):
         weight = np.minimum(P_range[-1], P_max) - np.maximum(P_range[0], P_min)
         # Layers that do not overlap the window get no opacity
         weight = np.maximum(weight, 0.0)
+        # Fraction of each layer (in log pressure) that lies inside the
+        # window: layers need not be equally thick (array/file profiles)
+        thickness = P_max - P_min
+        weight = np.divide(weight, thickness, out=np.zeros_like(weight),
+                           where=thickness > 0)
         if weight.size > 0 and weight.max() > 0.0:
             weight /= weight.max()
         sigma_xsec = np.zeros(shape=(self._nlayers, wngrid.shape[0]))
